@@ -310,13 +310,11 @@ func (p *Pkg) codeWeights(ctx *symCtx) map[string]map[string]*big.Rat {
 		var rec func(i int)
 		rec = func(i int) {
 			if i == len(doms) {
-				var args []Val
 				var vals []string
 				for j := range doms {
-					args = append(args, vInt(int64(cur[j])))
 					vals = append(vals, doms[j][cur[j]])
 				}
-				v, err := newCEnv(p, nil).callFunc(p.FuncObj[u.Fn], args, u.Call)
+				v, err := u.eval(p, cur)
 				if err == nil && (v.K == VRat || v.K == VInt) {
 					tbl[strings.Join(vals, "|")] = toRat(v)
 				}
